@@ -125,6 +125,8 @@ func genHistory(r *rand.Rand) *common.History {
 		newest = r.Uint64N(max/2 + 1)
 	}
 	var accepted []uint64
+	deferred := kind == 0 && r.IntN(3) == 0 // plain detector: callbacks kept and invoked later, in any order, also twice
+	var kept []int
 	space := max + 1 // wraps to 0 for 2^64-1; only used for kind 1
 	first := true
 	for i := 0; i < nops; i++ {
@@ -170,6 +172,24 @@ func genHistory(r *rand.Rand) *common.History {
 			}
 		}
 		invoke := r.IntN(5) != 0
+		if deferred && r.IntN(3) == 0 {
+			// keep the callback of this check; it is invoked by a later operation [index; 3] - possibly after other checks and
+			// accepts, possibly more than once
+			h.Ops = append(h.Ops, []string{common.I(seq), "2"})
+			kept = append(kept, len(h.Ops)-1)
+			continue
+		}
+		if deferred && len(kept) > 0 && r.IntN(3) == 0 {
+			j := kept[len(kept)-1-r.IntN(min(len(kept), 4))]
+			h.Ops = append(h.Ops, []string{common.I(j), "3"})
+			if s2 := common.AtoU64(h.Ops[j][0]); s2 <= max {
+				accepted = append(accepted, s2)
+				if s2 > newest {
+					newest = s2
+				}
+			}
+			continue
+		}
 		h.Ops = append(h.Ops, []string{common.I(seq), common.B(invoke)})
 		// keep the generator's idea of the newest number in step with a plausible detector
 		if invoke && seq <= max {
@@ -205,10 +225,24 @@ func run(h *common.History) {
 	}
 	h.Obs = nil
 	nAcc, nRefused, nLatest, nNotInvoked := 0, 0, 0, 0
-	for _, op := range h.Ops {
+	keptCb := map[int]func() bool{}
+	for i, op := range h.Ops {
+		if op[1] == "3" {
+			// invoke the callback kept by operation j (a failed check's callback does nothing and says false)
+			res := "0"
+			if cb, ok := keptCb[common.AtoI(op[0])]; ok {
+				res = common.B(cb())
+			}
+			h.Obs = append(h.Obs, []string{"2", res})
+			h.Tags = append(h.Tags, "deferred_accept")
+			continue
+		}
 		seq := common.AtoU64(op[0])
-		invoke := op[1] != "0"
+		invoke := op[1] == "1"
 		accept, ok := d.Check(seq)
+		if op[1] == "2" {
+			keptCb[i] = accept
+		}
 		res := "-1"
 		if invoke {
 			l := accept()
